@@ -703,6 +703,8 @@ def to_bool(v):
         return v.e
     if isinstance(v, (bool, np.bool_)):
         return sp.true if v else sp.false
+    if isinstance(v, sp.Piecewise) and len(v.args) == 2 and v.args[0][0] == 1 and v.args[1][0] == 0 and v.args[1][1] is sp.true:
+        return v.args[0][1]          # numeric image of a boolean (mask arithmetic) back to the boolean
     if isinstance(v, sp.Basic):
         if isinstance(v, (sp.logic.boolalg.BooleanFunction, sp.logic.boolalg.BooleanAtom,
                           sp.core.relational.Relational, _BoolSym)):
